@@ -449,6 +449,13 @@ func persistentFaults(sc *Scenario) bool {
 			return true
 		}
 	}
+	if sc.HQ != nil {
+		for _, plan := range sc.HQ.Faults {
+			if len(plan) > 0 && strings.HasSuffix(plan[len(plan)-1], "*") {
+				return true
+			}
+		}
+	}
 	return false
 }
 
